@@ -459,7 +459,57 @@ def rule_e(ctx):
               a["span"], [f for f in a["variants"][0]["fields"] if f["pub"]])
 
 
+def rule_f(ctx):
+    """a registration adds its action: in every public registering function (helpers inlined) every path to the publish of the new snapshot
+    runs through an insert of the `action` argument into an action map, and a freshly made slot is put into the signal map before the
+    publish. (Returning a fresh id for an action that is in no snapshot breaks "per-signal ordered multiset" at the first step.)"""
+    F = ctx.F
+    rid = "C05.f"
+    ctx.rule(rid, "register adds: on every path to the publish the action argument is inserted into an action map, and a newly created slot is inserted "
+                  "into the signal map", floor=4)
+    from .C02 import registering
+    from .C14 import registry_effects
+    from .util import adt_constructions
+    for fn, r0, r in registering(F):
+        ctx.fn(r0)
+        name = fn["path"].split("::")[-1]
+        inst, queries, pubs, fbs = registry_effects(F, r)
+        if not pubs:
+            raise AnchorLost("publish of the data snapshot in %s" % name)
+        fl = flow(r)
+        act_param = r.body["argc"]            # the action is the last parameter of every registering function
+        ins = set(); slot_ins = set()
+        for bb, t in r.calls():
+            if r.blocks[bb].get("dead") or t.get("f") is None:
+                continue
+            ci = F.inst[t["f"]]
+            if re.match(r"^alloc::collections::btree::map::BTreeMap::<.*>::insert$", ci.name) or re.match(r"^alloc::collections::btree::map::entry::.*::(insert|or_insert|or_insert_with|insert_entry)$", ci.name) \
+                    or re.match(r"^(std|hashbrown|alloc)::.*::(insert|or_insert|or_insert_with|insert_entry|push|push_back)$", ci.name):
+                vals = [e for k in range(1, len(t["args"])) for e in fl.term_arg(bb, k)]
+                d = deps(r, vals)
+                if ("param", act_param) in d and "ActionId" in ci.name:
+                    ins.add(bb)
+                if "signal_hook_registry::Slot" in ci.name and "ActionId" not in ci.name.split("Slot")[0]:
+                    slot_ins.add(bb)
+        for pb, pt in pubs:
+            okk, leak = cfg.every_path_passes(r, 0, [pb], ins, unwind=False)
+            ctx.check(bool(ins) and okk, rid, "action-inserted-before-publish@%s" % name, "%s: every path to the publish inserts the action argument into an action map" % name, pt["sp"],
+                      {"insert_sites": [r.term(b)["sp"].split("/")[-1] for b in sorted(ins)],
+                       "path_without_insert": [r.term(b)["sp"].split("/")[-1] for b in (cfg.path(r, 0, pb, avoid=ins, unwind=False) or [])][:10] if not okk else None})
+        made = adt_constructions(r, "signal_hook_registry::Slot")
+        for (sb, ssi, rv) in made:
+            if r.blocks[sb].get("dead"):
+                continue
+            for pb, pt in pubs:
+                if pb not in cfg.reachable(r, sb, unwind=False):
+                    continue
+                okk, leak = cfg.every_path_passes(r, sb, [pb], slot_ins, unwind=False)
+                ctx.check(bool(slot_ins) and okk, rid, "new-slot-inserted@%s" % name, "%s: a newly created slot is put into the signal map before the publish" % name, rv.get("sp") or pt["sp"],
+                          {"map_inserts": [r.term(b)["sp"].split("/")[-1] for b in sorted(slot_ins)]})
+
+
 def run(ctx):
+    ctx.guarded("C05.f", rule_f)
     ctx.guarded("C05.a", rule_a)
     ctx.guarded("C05.b", rule_b)
     ctx.guarded("C05.c", rule_c)
